@@ -615,3 +615,46 @@ V("C16-mapping-minus", "C16", ["C16.R3"], [(CONS, "                constants.app
 V("C16-star-below-plus", "C16", ["C16.R1"], [(CONS, '                "*",\n                arity=2,\n                precedence=200,', '                "*",\n                arity=2,\n                precedence=50,')])
 V("C16-minus-right-assoc", "C16", ["C16.R1"], [(CONS, '                "-",\n                arity=2,\n                precedence=100,\n                associativity="left",', '                "-",\n                arity=2,\n                precedence=100,\n                associativity="right",')])
 V("C16-rename-equiv", "C16", [], [(CONS, "        def negate_terms(terms: set[ScaledFactor]) -> set[ScaledFactor]:\n            return {-term for term in terms}", "        def negate_terms(ts: set[ScaledFactor]) -> set[ScaledFactor]:\n            return {-t for t in ts}")])
+
+# ----------------------------------------------------------------------------------------- C18
+LAG = "formulaic/transforms/lag.py"
+CALC = "formulaic/utils/calculus.py"
+V("C18-revert-state-copy", "C18", ["C18.R1"], [(BASE, """                # Never mutate the state of incoming model specs
+                "transform_state": copy.deepcopy(model_spec.transform_state),
+                "encoder_state": copy.deepcopy(model_spec.encoder_state),
+""", "")], "origin: revert 39c8273 (building from an unfitted spec writes into the caller's dictionaries)")
+V("C18-shallow-state-copy", "C18", ["C18.R1"], [(BASE, '                "transform_state": copy.deepcopy(model_spec.transform_state),', '                "transform_state": dict(model_spec.transform_state),')])
+V("C18-writeback-into-callers-spec", "C18", ["C18.R1"], [(BASE, "        model_specs._map(\n            lambda ms: ms.transform_state.update(", "        spec._map(\n            lambda ms: ms.transform_state.update(")])
+V("C18-revert-random-suffix", "C18", ["C18.R5"], [("formulaic/utils/code.py", """    suffix = 0
+    while new_name in env:
+        suffix += 1
+        new_name = template.format(f"{base_name}_{suffix}")
+""", """    import numpy
+    while new_name in env:
+        new_name = template.format(
+            base_name
+            + "_"
+            + "".join(numpy.random.choice(list("abcefghiklmnopqrstuvwxyz"), 10))
+        )
+""")], "origin: revert f1fd98f (random alias suffix flows into the transform-state key)")
+V("C18-id-in-name", "C18", ["C18.R5"], [("formulaic/utils/code.py", '        new_name = template.format(f"{base_name}_{suffix}")', '        new_name = template.format(f"{base_name}_{suffix}_{id(env) % 97}")')])
+V("C18-wildcard-set", "C18", ["C18.R2"], [(PARSER, """                available_variables = OrderedSet(
+                    context["__formulaic_variables_available__"]
+                )""", """                available_variables = set(
+                    context["__formulaic_variables_available__"]
+                )""")], "`.` expands in hash order")
+V("C18-droprows-unsorted", "C18", ["C18.R2"], [(BASE, "        drop_rows: Sequence[int] = sorted(drop_rows)", "        drop_rows: Sequence[int] = list(drop_rows)")])
+V("C18-pooled-factor-names", "C18", ["C18.R2"], [(BASE, "        return factors, cast(\n            ModelSpec,", "        self._last_factor_order = [f.expr for f in factors]\n        return factors, cast(\n            ModelSpec,")])
+V("C18-diff-union-set", "C18", ["C18.R2"], [(CALC, "    factors = OrderedSet(term.factors)", "    factors = set(term.factors)")])
+V("C18-scale-inplace", "C18", ["C18.R3"], [(SCALE, "    data = numpy.array(data)\n", "    data = numpy.asarray(data)\n"), (SCALE, "        data = data - _state[\"center\"]", "        data -= _state[\"center\"]")],
+  "two cooperating edits: asarray (alias) + in-place subtraction mutate the caller's column")
+V("C18-lag-no-copy", "C18", ["C18.R3"], [(LAG, "    data = numpy.copy(data).astype(float)", "    data = numpy.asarray(data)")])
+V("C18-bs-clip-out", "C18", ["C18.R3"], [(BS, "                x = numpy.clip(x, lower_bound, upper_bound)", "                x = numpy.clip(x, lower_bound, upper_bound, out=x)")])
+V("C18-cs-zero-input", "C18", ["C18.R3"], [(CS, "        cs_mat[below_lower | above_upper] = 0.0", "        x[below_lower | above_upper] = 0.0")])
+V("C18-materializer-data-write", "C18", ["C18.R3"], [(PANDAS, "        nrows = self.nrows - len(drop_rows)\n        if spec.output == \"sparse\":", "        nrows = self.nrows - len(drop_rows)\n        self.data[\"__const__\"] = value\n        if spec.output == \"sparse\":")])
+V("C18-default-parser-flags", "C18", ["C18.R4"], [(FORMULA, "        nested_parser = nested_parser or parser or DEFAULT_NESTED_PARSER\n        parser = parser or DEFAULT_PARSER\n", "        nested_parser = nested_parser or parser or DEFAULT_NESTED_PARSER\n        parser = parser or DEFAULT_PARSER\n        if context and context.get('multistage'):\n            DEFAULT_PARSER.set_feature_flags({'all'})\n")])
+V("C18-unwrapped-state-default", "C18", ["C18.R4"], [(SCALE, "@stateful_transform\ndef center(", "def center(")])
+V("C18-parse-context-shared", "C18", ["C18.R4"], [(FPARSER, "        context = LayeredMapping(context or {}, self.context)", "        context = context if context is not None else (self.context or {})")])
+V("C18-spec-setattr", "C18", ["C18.R6"], [(SPEC, "        return replace(self, **kwargs)", "        for k, v in kwargs.items():\n            object.__setattr__(self, k, v)\n        return self")])
+V("C18-local-temp-equiv", "C18", [], [(POLY, "    out = numpy.empty((x.shape[0], degree))\n    out.fill(numpy.nan)", "    out = numpy.empty((x.shape[0], degree))\n    out[:] = numpy.nan")])
+V("C18-sorted-set-equiv", "C18", [], [(BASE, "        drop_rows: Sequence[int] = sorted(drop_rows)", "        drop_rows: Sequence[int] = sorted(set(drop_rows))")])
